@@ -30,6 +30,38 @@ type fnInfo struct {
 
 var fnInfoCache sync.Map
 
+type methodKey struct {
+	t types.Type
+	m *types.Func
+}
+
+var methodCache sync.Map
+
+// fnMeta caches per-function call resolution (names are expensive to render).
+type fnMeta struct {
+	name      string
+	redirect  *ssa.Function
+	intrinsic bool
+	native    string
+	hasNative bool
+	interp    bool
+	initFn    bool
+}
+
+func (e *Engine) meta(fn *ssa.Function) *fnMeta {
+	if v, ok := e.metaCache.Load(fn); ok {
+		return v.(*fnMeta)
+	}
+	m := &fnMeta{name: fn.String()}
+	m.redirect = e.redirects[m.name]
+	m.intrinsic = intrinsicNames[fn.Name()] && fn.Signature.Recv() == nil
+	m.native, m.hasNative = nativeForFn(fn, m.name)
+	m.interp = e.interpretFn(fn)
+	m.initFn = fn.Name() == "init" || strings.HasPrefix(fn.Name(), "init#")
+	e.metaCache.Store(fn, m)
+	return m
+}
+
 func getFnInfo(fn *ssa.Function) *fnInfo {
 	if v, ok := fnInfoCache.Load(fn); ok {
 		return v.(*fnInfo)
@@ -128,22 +160,27 @@ type Path struct {
 	nextObj  int
 	nextErr  int
 
-	nondets       []*Term
-	nondetCount   map[string]int
-	steps         int
-	reached       map[string]bool
-	funcs         map[*ssa.Function]int
-	violations    []Violation
-	asserts       int
-	obligations   int
-	expectPanic   bool
-	inconclusive  []string
-	lastPos       token.Pos
-	lastFn        *ssa.Function
-	nativeState   map[string]interface{}
-	symDecisions  int
-	assertQueries []string
-	sample        *PathSummary
+	nondets        []*Term
+	nondetCount    map[string]int
+	steps          int
+	reached        map[string]bool
+	funcs          map[*ssa.Function]int
+	violations     []Violation
+	asserts        int
+	obligations    int
+	expectPanic    bool
+	inconclusive   []string
+	lastPos        token.Pos
+	lastFn         *ssa.Function
+	nativeState    map[string]interface{}
+	symDecisions   int
+	assertQueries  []string
+	sample         *PathSummary
+	constrained    map[*Term]bool
+	redirectsUsed  map[string]int
+	pendingAsserts []pendingAssert
+	known          map[*Term]bool
+	visited        map[*Term]bool
 }
 
 func (p *Path) end(kind, msg string)   { panic(pathEnd{kind, msg}) }
@@ -169,6 +206,7 @@ func (p *Path) obligation(cond *Term, msg string) {
 		return
 	}
 	p.obligations++
+	p.flushAsserts()
 	if cond.IsFalse() {
 		p.runtimePanic(msg)
 	}
@@ -179,6 +217,7 @@ func (p *Path) obligation(cond *Term, msg string) {
 			p.addViolation("panic", "panic", msg+p.where(), model)
 		}
 	case "unsat":
+		return // the panic is impossible on this path; cond is implied
 	default:
 		p.inconclusive = append(p.inconclusive, "obligation "+msg+": solver "+r+" "+p.sol.LastErr)
 	}
@@ -193,6 +232,64 @@ func (p *Path) obligation(cond *Term, msg string) {
 func (p *Path) assume(c *Term) {
 	p.sol.Assert(c)
 	p.pcs = append(p.pcs, c)
+	p.markConstrained(c)
+	if p.known == nil {
+		p.known = map[*Term]bool{}
+	}
+	if c.op == "not" {
+		p.known[c.args[0]] = false
+	} else {
+		p.known[c] = true
+	}
+}
+
+// knownValue: c (or its negation) is literally one of the assumed formulas.
+func (p *Path) knownValue(c *Term) (bool, bool) {
+	if p.known == nil {
+		return false, false
+	}
+	if c.op == "not" {
+		if v, ok := p.known[c.args[0]]; ok {
+			return !v, true
+		}
+		return false, false
+	}
+	v, ok := p.known[c]
+	return v, ok
+}
+
+// freeBoolVar returns the variable if c is a boolean variable or its negation.
+func freeBoolVar(c *Term) *Term {
+	if c.op == "not" {
+		c = c.args[0]
+	}
+	if c.op == "var" && c.sort == 0 {
+		return c
+	}
+	return nil
+}
+
+// markConstrained records every variable occurring in an assumed formula.
+func (p *Path) markConstrained(c *Term) {
+	if p.constrained == nil {
+		p.constrained = map[*Term]bool{}
+		p.visited = map[*Term]bool{}
+	}
+	var walk func(t *Term)
+	walk = func(t *Term) {
+		if p.visited[t] {
+			return
+		}
+		p.visited[t] = true
+		if t.op == "var" {
+			p.constrained[t] = true
+			return
+		}
+		for _, a := range t.args {
+			walk(a)
+		}
+	}
+	walk(c)
 }
 
 func (p *Path) addViolation(kind, id, msg string, model map[string]uint64) {
@@ -220,6 +317,9 @@ func (p *Path) branch(c *Term) bool {
 	if c.IsConst() {
 		return c.val == 1
 	}
+	if val, ok := p.knownValue(c); ok {
+		return val
+	}
 	p.symDecisions++
 	if p.pos < len(p.prefix) {
 		d := p.prefix[p.pos]
@@ -234,6 +334,14 @@ func (p *Path) branch(c *Term) bool {
 	}
 	p.pos++
 	nc := p.tc.Not(c)
+	if v := freeBoolVar(c); v != nil && !p.constrained[v] {
+		// an input variable that no assumed formula mentions: both sides are feasible
+		alt := append(append([]int{}, p.trace...), 0)
+		p.pending = append(p.pending, alt)
+		p.trace = append(p.trace, 1)
+		p.assume(c)
+		return true
+	}
 	rt := p.sol.Check(c)
 	if rt == "unsat" {
 		p.trace = append(p.trace, 0)
@@ -790,6 +898,10 @@ func (p *Path) lookupMethod(iv IfaceV, m *types.Func) *FuncV {
 	if nv, ok := iv.v.(*NativeV); ok && p.isNativeType(iv.t) {
 		return &FuncV{native: "nativemethod:" + nv.kind + "." + m.Name()}
 	}
+	key := methodKey{iv.t, m}
+	if f, ok := methodCache.Load(key); ok {
+		return &FuncV{fn: f.(*ssa.Function)}
+	}
 	ms := p.eng.prog.MethodSets.MethodSet(iv.t)
 	sel := ms.Lookup(m.Pkg(), m.Name())
 	if sel == nil {
@@ -799,6 +911,7 @@ func (p *Path) lookupMethod(iv IfaceV, m *types.Func) *FuncV {
 	if fn == nil {
 		p.internal("no method value for " + m.Name() + " on " + iv.t.String())
 	}
+	methodCache.Store(key, fn)
 	return &FuncV{fn: fn}
 }
 
@@ -817,19 +930,19 @@ func (p *Path) invoke(g *G, fr *Frame, fv *FuncV, args []Value, retIdx int, onDo
 	if fv.hasRcv {
 		args = append([]Value{fv.recv}, args...)
 	}
-	if fv.fn != nil && g.id == -1 && (fv.fn.Name() == "init" || strings.HasPrefix(fv.fn.Name(), "init#")) {
-		// package initialisation: only variable initialisers are interpreted
-		if onDone != nil {
-			onDone()
-		}
-		return stNext
-	}
 	if fv.fn != nil {
-		name := fv.fn.String()
-		if rd, ok := p.eng.redirects[name]; ok {
-			fv = &FuncV{fn: rd}
-			p.eng.noteRedirect(name)
-		} else if p.isIntrinsic(fv.fn) {
+		m := p.eng.meta(fv.fn)
+		if g.id == -1 && m.initFn {
+			// package initialisation: only variable initialisers are interpreted
+			if onDone != nil {
+				onDone()
+			}
+			return stNext
+		}
+		if m.redirect != nil {
+			fv = &FuncV{fn: m.redirect}
+			p.redirectsUsed[m.name]++
+		} else if m.intrinsic {
 			res, st := p.intrinsic(g, fr, fv.fn, args)
 			if st == stBlock {
 				return stBlock
@@ -841,10 +954,10 @@ func (p *Path) invoke(g *G, fr *Frame, fv *FuncV, args []Value, retIdx int, onDo
 				onDone()
 			}
 			return stNext
-		} else if nat, ok := p.nativeFor(fv.fn); ok {
-			fv = &FuncV{native: nat, fn: fv.fn, bind: fv.bind}
-		} else if !p.eng.interpretFn(fv.fn) {
-			p.unsupported("call into uninterpreted function " + name)
+		} else if m.hasNative {
+			fv = &FuncV{native: m.native, fn: fv.fn, bind: fv.bind}
+		} else if !m.interp {
+			p.unsupported("call into uninterpreted function " + m.name)
 		}
 	}
 	if fv.native != "" {
@@ -910,14 +1023,14 @@ func (p *Path) doGo(fr *Frame, cc *ssa.CallCommon) {
 	}
 	ng := &G{id: len(p.gs)}
 	if fv.fn != nil {
-		if rd, ok := p.eng.redirects[fv.fn.String()]; ok {
-			fv = &FuncV{fn: rd}
+		if m := p.eng.meta(fv.fn); m.redirect != nil {
+			fv = &FuncV{fn: m.redirect}
 		}
 	}
-	if fv.native != "" || fv.fn == nil || (!p.eng.interpretFn(fv.fn) && p.eng.redirects[fv.fn.String()] == nil) {
+	if fv.native != "" || fv.fn == nil || !p.eng.meta(fv.fn).interp {
 		// a goroutine running a native: ignore no-ops, refuse others
 		if fv.fn != nil {
-			if nat, ok := p.nativeFor(fv.fn); ok && nat == "noop" {
+			if m := p.eng.meta(fv.fn); m.hasNative && m.native == "noop" {
 				return
 			}
 		}
